@@ -39,6 +39,10 @@ func init() {
 			{"src/fs/fs.go", "", "WriteFile", "write_file",
 				[]string{"os.MkdirAll", "os.CreateTemp", "os.Create", "io.Copy", "Close", "os.Chmod", "renameFile", "os.Rename"}},
 			{"src/fs/attr.go", "", "RecordAttrFile", "record_attr_file", []string{"os.WriteFile", "WriteFile", "os.Create"}},
+			// follow-up 2 (pinned hashes): Build's error path and RemoveOutputs
+			{"src/build/build_step.go", "", "Build", "build_on_error", []string{"buildTarget", "RemoveOutputs", "StoreTargetMetadata", "writeRuleHash"}},
+			{"src/build/build_step.go", "", "RemoveOutputs", "remove_outputs",
+				[]string{"fs.RemoveAll", "os.RemoveAll", "os.Remove", "fs.EnsureDir", "os.MkdirAll", "os.Create", "os.WriteFile", "fs.WriteFile"}},
 		}
 		var b strings.Builder
 		b.WriteString(genHeader)
@@ -131,6 +135,7 @@ func init() {
 		b.WriteString("Definition hash_length : string := " + coqString(consts["hashLength"]) + ".\n")
 		b.WriteString("Definition full_hash_length : string := " + coqString(consts["fullHashLength"]) + ".\n")
 		c32Prepare(&b)
+		c32Calc(&b)
 		return b.String()
 	}
 }
@@ -351,6 +356,172 @@ func c32Prepare(b *strings.Builder) {
 	}
 	walk(bt.Body)
 	b.WriteString("Definition build_target_tmp : list string := " + coqStringList(seq) + ".\n")
+}
+
+// c32Calc (follow-up 2: targets with pinned `hashes`): calculateAndCheckRuleHash as a straight-line program.
+//   - calc_prog: the calls OutputHash / checkRuleHashes / writeRuleHash, one per TOP-LEVEL statement of the body, in
+//     statement order (two of them in one statement, or one inside a loop / function literal / defer: fails closed);
+//   - calc_check_returns: does an error of checkRuleHashes make the function return? The body of
+//     `if err = checkRuleHashes(...); err != nil { ... }` translated into a Coq boolean function of
+//     state.NeedHashesOnly, state.IsOriginalTargetOrParent(target), state.VerifyHashes (closed statement language:
+//     return, if/else, log calls; closed condition language: those three, !, &&, ||, parentheses);
+//   - calc_record_guard: the condition around the writeRuleHash statement (source text).
+func c32Calc(b *strings.Builder) {
+	_, f := parseFile("src/build/build_step.go")
+	fd := findFunc(f, "", "calculateAndCheckRuleHash")
+	if fd.Body == nil {
+		failShape("calculateAndCheckRuleHash has no body")
+	}
+	vocab := map[string]bool{"OutputHash": true, "checkRuleHashes": true, "writeRuleHash": true}
+	callsIn := func(n ast.Node) []string {
+		var out []string
+		ast.Inspect(n, func(x ast.Node) bool {
+			switch y := x.(type) {
+			case *ast.FuncLit, *ast.DeferStmt, *ast.GoStmt:
+				bad := false
+				ast.Inspect(y, func(z ast.Node) bool {
+					if c, ok := z.(*ast.CallExpr); ok && vocab[c32CallName(c)] {
+						bad = true
+					}
+					return true
+				})
+				if bad {
+					failShape("calculateAndCheckRuleHash: effect call inside a function literal, defer or go statement")
+				}
+				return false
+			case *ast.CallExpr:
+				if name := c32CallName(y); vocab[name] {
+					out = append(out, name)
+				}
+			}
+			return true
+		})
+		return out
+	}
+	var cond func(e ast.Expr) string
+	cond = func(e ast.Expr) string {
+		switch y := e.(type) {
+		case *ast.ParenExpr:
+			return "(" + cond(y.X) + ")"
+		case *ast.UnaryExpr:
+			if y.Op == token.NOT {
+				return "(negb " + cond(y.X) + ")"
+			}
+		case *ast.BinaryExpr:
+			switch y.Op {
+			case token.LAND:
+				return "(" + cond(y.X) + " && " + cond(y.Y) + ")"
+			case token.LOR:
+				return "(" + cond(y.X) + " || " + cond(y.Y) + ")"
+			}
+		case *ast.SelectorExpr:
+			switch cnExpr(y) {
+			case "state.NeedHashesOnly":
+				return "need_hashes_only"
+			case "state.VerifyHashes":
+				return "verify_hashes"
+			}
+		case *ast.CallExpr:
+			if cnExpr(y) == "state.IsOriginalTargetOrParent(target)" {
+				return "is_original"
+			}
+		}
+		failShape("calculateAndCheckRuleHash: condition not in the closed language: %s", cnExpr(e))
+		return ""
+	}
+	// returns(stmts): does running the statements end in a `return`?
+	var returns func(list []ast.Stmt) string
+	returns = func(list []ast.Stmt) string {
+		if len(list) == 0 {
+			return "false"
+		}
+		rest := returns(list[1:])
+		switch y := list[0].(type) {
+		case *ast.ReturnStmt:
+			return "true"
+		case *ast.BlockStmt:
+			return "(" + returns(y.List) + " || " + rest + ")"
+		case *ast.IfStmt:
+			if y.Init != nil {
+				failShape("calculateAndCheckRuleHash: if with init inside the error branch of checkRuleHashes")
+			}
+			els := "false"
+			switch e := y.Else.(type) {
+			case nil:
+			case *ast.BlockStmt:
+				els = returns(e.List)
+			case *ast.IfStmt:
+				els = returns([]ast.Stmt{e})
+			default:
+				failShape("calculateAndCheckRuleHash: else shape")
+			}
+			return "((if " + cond(y.Cond) + " then " + returns(y.Body.List) + " else " + els + ") || " + rest + ")"
+		case *ast.ExprStmt:
+			if c, ok := y.X.(*ast.CallExpr); ok && strings.HasPrefix(cnExpr(c.Fun), "log.") {
+				return rest
+			}
+		}
+		failShape("calculateAndCheckRuleHash: statement not in the closed language inside the error branch of checkRuleHashes: %s", cnStmtKind(list[0]))
+		return ""
+	}
+	var prog []string
+	checkReturns, recordGuard := "", ""
+	for _, st := range fd.Body.List {
+		switch st.(type) {
+		case *ast.ForStmt, *ast.RangeStmt, *ast.SwitchStmt, *ast.TypeSwitchStmt, *ast.SelectStmt, *ast.LabeledStmt:
+			if len(callsIn(st)) > 0 {
+				failShape("calculateAndCheckRuleHash: effect call inside a loop or switch")
+			}
+			continue
+		}
+		cs := callsIn(st)
+		if len(cs) == 0 {
+			continue
+		}
+		if len(cs) > 1 {
+			failShape("calculateAndCheckRuleHash: %v in one top-level statement", cs)
+		}
+		prog = append(prog, cs[0])
+		switch cs[0] {
+		case "checkRuleHashes":
+			is, ok := st.(*ast.IfStmt)
+			if !ok || is.Init == nil || is.Else != nil || cnExpr(is.Cond) != "err != nil" || len(callsIn(is.Init)) != 1 {
+				failShape("calculateAndCheckRuleHash: expected `if err = checkRuleHashes(...); err != nil { ... }`")
+			}
+			checkReturns = returns(is.Body.List)
+		case "writeRuleHash":
+			is, ok := st.(*ast.IfStmt)
+			if !ok {
+				failShape("calculateAndCheckRuleHash: writeRuleHash statement shape")
+			}
+			if len(callsIn(is.Cond)) > 0 || (is.Init != nil && len(callsIn(is.Init)) > 0) {
+				recordGuard = "" // `if err := writeRuleHash(...); err != nil`: unconditional
+			} else {
+				if is.Else != nil {
+					failShape("calculateAndCheckRuleHash: else around writeRuleHash")
+				}
+				recordGuard = cnExpr(is.Cond)
+			}
+		}
+	}
+	if checkReturns == "" {
+		failShape("calculateAndCheckRuleHash: no checkRuleHashes statement")
+	}
+	b.WriteString("Definition calc_prog : list string := " + coqStringList(prog) + ".\n")
+	b.WriteString("Definition calc_check_returns (need_hashes_only is_original verify_hashes : bool) : bool := (" + checkReturns + ")%bool.\n")
+	b.WriteString("Definition calc_record_guard : string := " + coqString(recordGuard) + ".\n")
+}
+
+func cnStmtKind(s ast.Stmt) string {
+	switch s.(type) {
+	case *ast.AssignStmt:
+		return "assignment"
+	case *ast.ExprStmt:
+		return "expression statement"
+	case *ast.ForStmt, *ast.RangeStmt:
+		return "loop"
+	}
+	return "statement"
 }
 
 // c32CallName: "pkg.Fn" for a call through a package-like identifier the vocabulary may name, else the bare
